@@ -312,6 +312,9 @@ func (s *Sim) Gen(r *PRNG) Step {
 			st.C = ownThis | []int{4, 5}[r.Intn(2)]<<2 | 1<<5
 			st.B = r.Intn(5)
 		}
+		if s.Cfg.Profile == "claimsrepair" && r.Chance(0.6) {
+			st.C = []int{ownNone, ownThis}[r.Intn(2)] | 3<<2 | 1<<9
+		}
 		if s.Cfg.Profile == "flags" && r.Chance(0.4) {
 			// an owned pod whose labels stopped matching
 			st.C = ownThis | 3<<2 | 1<<6
